@@ -3,7 +3,6 @@
 PROP = {
     "pkg": "internal/stats",
     "files": ["stats/c09_seq_test.go", "stats/c09_conc_test.go"],
-    "claimed": False,
     "level": "exploration",
     "technique": "property-based testing (rapid): stateful history machine against a per-hour reference model, "
                  "observed at GET /control/stats; concurrent updaters/flush/readers with bounds and conservation "
